@@ -148,7 +148,7 @@ func TestVerifC04FilePV(t *testing.T) {
 	}
 	alpha = append(alpha, c04fOp{K: "restart"})
 	maxLen := vr.Pick(4, 5)
-	n := 0
+	n, mine := 0, 0
 	stop := false
 	reported := map[string]bool{}
 	seq := make([]c04fOp, 0, maxLen)
@@ -160,7 +160,8 @@ func TestVerifC04FilePV(t *testing.T) {
 		if len(seq) > 0 {
 			n++
 			if r.Mine(n) {
-				if n%2048 == 0 && r.Deadline("C04 signer sequences") {
+				mine++
+				if mine%512 == 0 && r.Deadline("C04 signer sequences") {
 					stop = true
 					return
 				}
